@@ -24,6 +24,8 @@ def rand_reward(rng, pops, n, lc):
 
 
 def run(res, replay=None):
+    # structural tie of phasegen/rewards.py: translate the CURRENT source and re-check proofs/GenRewardsEquiv.v against it
+    import translate_step; (res.proof is not None) and translate_step.run(res.proof, pid=res.pid, tie='rewards')
     rng = random.Random(res.seed)
     res.rule = ('routes stream: random configurations (n<=4, 1-2 demes, three models, 1-2 epochs) and random reward tuples of '
                 'order 2-3 built from the public reward classes incl. nested Sum/Product/Combined: central = binomial '
